@@ -1,10 +1,12 @@
 #!/bin/sh
-# build the extracted model + driver into .build/runner (only when inputs changed)
+# build the extracted model + driver (only when inputs changed)
+# usage: build_runner.sh [coq-dir] [out-dir]
 set -e
 ROOT="$(cd "$(dirname "$0")/.." && pwd)"
-OUT="$ROOT/.build/runner"
+COQDIR="${1:-$ROOT/coq}"
+OUT="${2:-$ROOT/.build/runner}"
 mkdir -p "$OUT"
-if [ ! -f "$OUT/driver" ] || [ "$ROOT/coq/model.ml" -nt "$OUT/driver" ] || [ "$ROOT/runner/driver.ml" -nt "$OUT/driver" ]; then
-  cp "$ROOT/coq/model.ml" "$ROOT/coq/model.mli" "$ROOT/runner/driver.ml" "$OUT/"
+if [ ! -f "$OUT/driver" ] || [ "$COQDIR/model.ml" -nt "$OUT/driver" ] || [ "$ROOT/runner/driver.ml" -nt "$OUT/driver" ]; then
+  cp "$COQDIR/model.ml" "$COQDIR/model.mli" "$ROOT/runner/driver.ml" "$OUT/"
   (cd "$OUT" && ocamlfind ocamlopt -package unix -linkpkg -w -a -o driver.tmp model.mli model.ml driver.ml && mv driver.tmp driver)
 fi
